@@ -215,6 +215,22 @@ def check_c17_hosts(prop, tier, replay):
                                "partition of the other replicas while the shard sleeps)"])
 
 
+def check_c17_catchup(prop, tier, replay):
+    """sixth engine of C17: two cut-off followers of a five-replica shard must both be brought up to date"""
+    n, tr = (3, 2) if tier == "quick" else (8, 6)
+    batches = [{"first": k * tr, "traces": tr, "mode": "catchup", "dur": 0, "rounds": 0,
+                "store": "tan" if k % 3 == 2 else None} for k in range(n)]
+    return tv_run(prop, tier, replay, harness_dirs=HARNESS, pkg=".", test="TestVerifNhsim",
+                  trace_module="CatchUpHostTrace", tag="CU-REPORT", count_tag="CU-COUNT",
+                  batches=batches, env_of=_snap_env, mc=(),
+                  level="exploration", stats_tag="NHSTATS", panic_ok=True, max_workers=6,
+                  build_name="nhsim", merge_into_existing=True,
+                  what="a reachable lagging replica was not brought up to date (30 s after the heal, leader unchanged)",
+                  sig_of=lambda op, f: "C17:catchup-host:%s" % op,
+                  assumptions=["wall-clock engine: a laggard counts as stuck only when it lacks the last write 30 s after the "
+                               "heal while the leader of that moment is still the leader (a healthy shard needs well under a second)"])
+
+
 def check_c12_hosts(prop, tier, replay):
     """second engine of C12: request handles of real NodeHosts under faults always deliver a result"""
     n, tr = (6, 4) if tier == "quick" else (24, 12)
